@@ -1008,13 +1008,21 @@ class TestResult(unittest.TestResult):
             self._threads = threadsupport.enumerate()
             if not hasattr(self, "_start_time"):
                 self._start_time = time.time()
+            buffered = False
         else:
-            self._restoreStdStreams()
+            # Report the skip on the real streams, but keep what has been
+            # captured and go on capturing afterwards: the rest of the test
+            # (tearDown, cleanups, further subtests) still runs, and its
+            # output is only of interest if it fails.
+            buffered = self.options.buffer and self._std_streams_buffered
+            if buffered:
+                sys.stdout = self._original_stdout
+                sys.stderr = self._original_stderr
         unittest.TestResult.addSkip(self, test, reason)
         self.options.output.test_skipped(test, reason)
-        # The rest of a skipped test (tearDown, cleanups) still runs: keep
-        # its output out of the way, ``stopTest`` restores the streams.
-        self._setUpStdStreams()
+        if buffered:
+            sys.stdout = self._stdout_buffer
+            sys.stderr = self._stderr_buffer
 
     def addSubTest(self, test, subtest, exc_info):
         if exc_info is None:
